@@ -5,7 +5,7 @@ implementation's trace."""
 import hashlib, json, os
 import lib, router_gen, router_mon, shrink
 
-PROPS = ["C01", "C03", "C06", "C08", "C09", "C14", "C15", "C16", "C17", "C19"]
+PROPS = ["C01", "C03", "C06", "C08", "C09", "C14", "C15", "C16", "C17", "C19"]   # C16/C19 also run the stack driver (comp_stack)
 
 # scenario mix per property: (kind, number quick, number thorough, size)
 MIX = {
@@ -183,6 +183,20 @@ def run(ctx):
         w = router_mon.evaluate(ops, ans)
         return any(p == prop for (_i, p, _t) in w.v)
 
+    # ---- stack level (the real per-connection task remote() over in-memory streams)
+    stack_viol = []
+    if prop in ("C19", "C16"):
+        try:
+            import comp_stack
+            stack_viol = comp_stack.check_admission(ctx) if prop == "C19" else comp_stack.check_wills(ctx)
+        except Exception as e:  # noqa
+            import traceback
+            stack_viol = [("correspondence-only: stack driver failed: %s" % e, traceback.format_exc())]
+        for (text, replay_text) in stack_viol:
+            found = not text.startswith("correspondence-only:")
+            ctx.violation("stack-input" if found else "stack-correspondence", replay_text, found, text)
+            break
+
     if mine:
         ti, i, text = mine[0]
         ops = traces[ti][1]
@@ -214,6 +228,9 @@ def run(ctx):
 
 
 def replay(ctx, path):
+    if "stack driver script" in open(path).read()[:400]:
+        import comp_stack
+        return comp_stack.replay(ctx, path)
     iexe, _ = lib.cargo_driver("router")
     mexe, _ = lib.ocaml_driver("router", "RouterX")
     ops = [l for l in open(path).read().splitlines() if l.strip() and not l.startswith("#") and not l.startswith("ORACLE")]
